@@ -821,7 +821,7 @@ Section Cov.
   Proof.
     induction ops as [|o ops IH]; intros st s HR HI Hok; cbn [MsgStore.run entries snd c08_run]; [reflexivity|].
     inversion Hok as [|? ? Ho Hrest]; subst.
-    pose proof (step_sim F f_empty f_may f_add compact st s o HR Ho) as Hs.
+    pose proof (step_sim F f_empty f_may f_add compact st s o HR (op_ok_b o Ho)) as Hs.
     pose proof (Inv_step compact st o HI) as HI1.
     pose proof (step_code_zero st s o) as Hc.
     unfold MsgStore.step_dump in *.
@@ -1028,7 +1028,7 @@ Section Cov.
   Proof.
     induction ops as [|o ops IH]; intros st s HR HI Hn Hok Hnt; cbn [MsgStore.run fst]; [exists s; split; assumption|].
     inversion Hok as [|? ? Ho Hrest]; subst. inversion Hnt as [|? ? Ht Htrest]; subst.
-    pose proof (step_sim F f_empty f_may f_add compact st s o HR Ho) as Hs.
+    pose proof (step_sim F f_empty f_may f_add compact st s o HR (op_ok_b o Ho)) as Hs.
     pose proof (Inv_step compact st o HI) as HI1.
     pose proof (fun s' ds => step_no_ptaint st s o s' ds HR HI Ho Ht Hn) as Hp.
     unfold MsgStore.step_dump in *.
@@ -1182,7 +1182,7 @@ Section Cov.
   Proof.
     induction ops as [|o ops IH]; intros st s HR HI Hn Hok Hnt; cbn [MsgStore.run fst]; [exists s; split; assumption|].
     inversion Hok as [|? ? Ho Hrest]; subst. inversion Hnt as [|? ? Ht Htrest]; subst.
-    pose proof (step_sim F f_empty f_may f_add compact st s o HR Ho) as Hs.
+    pose proof (step_sim F f_empty f_may f_add compact st s o HR (op_ok_b o Ho)) as Hs.
     pose proof (Inv_step compact st o HI) as HI1.
     pose proof (fun s' ds => step_no_itaint st s o s' ds HR HI Ho Ht Hn) as Hp.
     unfold MsgStore.step_dump in *.
